@@ -6,8 +6,10 @@ props = [json.loads(l) for l in open(os.path.join(ROOT, "properties.jsonl"))]
 
 # id -> (technique, level text, level note, design ref)
 CLAIMED = {}
-def claim(i, technique, text, note, ref=None):
+LEVELS = {}
+def claim(i, technique, text, note, ref=None, level="exploration"):
     CLAIMED[i] = (technique, text, note, ref or f"DESIGN.md section 6 ({i})")
+    LEVELS[i] = level
 
 exec(open(os.path.join(ROOT, "tools", "claims.py")).read())
 
@@ -28,7 +30,7 @@ for p in props:
         "evidence_file": f"/verif/evidence/{i}.json",
         "replay_cmd_template": f"./vcheck {i} --replay {{path}}",
         "engine": "hypothesis-runner",
-        "level_claimed": {"category": "exploration", "text": text, "design_ref": ref},
+        "level_claimed": {"category": LEVELS.get(i, "exploration"), "text": text, "design_ref": ref},
         "level_note": note,
         "technique": tech,
     })
